@@ -73,6 +73,7 @@ fn main() {
             std::process::exit(2);
         }
     };
+    nvh::crash::install(&root.join("replays").join("found"));
     let seed = std::env::var("VERIF_SEED").ok().and_then(|s| s.parse::<i64>().ok()).unwrap_or(0) as u64;
     let only = args.iter().position(|a| a == "--stream").and_then(|i| args.get(i + 1)).map(|s| s.as_str());
     let code = run_property(prop, tier, seed, root, only);
